@@ -1627,8 +1627,10 @@ def rule_single_field_stride(ctx):
 
         def is_single(c):
             for x in walk(c, True):
-                if x[0] == "bin" and x[1] == "==" and kind(strip(x[2])) == "mem" and strip(x[2])[2] == "n" and is_int(x[3], 1):
-                    return True
+                if x[0] == "bin" and x[1] == "==":
+                    for a_, b_ in ((x[2], x[3]), (x[3], x[2])):
+                        if kind(strip(a_)) == "mem" and strip(a_)[2] == "n" and is_int(b_, 1):
+                            return True
             return False
 
         for lp, st in loops_of(f):
